@@ -154,3 +154,16 @@ prop("C11",
           "afterwards a fresh client is accepted and served. non-trivial: a fault fired while a healthy peer had expectations; distinct by trace hash",
      nontrivial=[["fault:would_block", "notify_add"], ["fault:write_error", "notify_add"], ["fault:sockerr", "notify_add"], ["fault:accept_failed:103"], ["fault:accept_failed:24"], ["routed_to_faulty_owner"]],
      required_probes=["fault:would_block", "fault:write_error", "fault:sockerr", "fault:stall", "routed_to_faulty_owner", "faulty_peer_dropped_by_daemon", "canary_ok", "notify_change", "owner_replied"])
+
+prop("C15", kind="c15", level="fault_enumeration", corpus=40,
+     mix=[("c15", "default", 1), ("c15", "small", 1), ("c15", "wsmall", 1), ("c15", "batch1", 1)],
+     quick_mix=[("c15", "default", 1)],
+     quick_s=90, thorough_s=1500,
+     rule="fault enumeration: a fixed corpus of 40 short scenarios (4-14 operations each, drawn once from the base, fetch, routing, connection-end, access-control, WebSocket, HTTP, matcher, deadline and namespace generators: every request type, "
+          "raw/unix/WebSocket connect and teardown, failed handshakes, routed requests with reply, timeout and disconnects, batches, authentication) is executed once to count its allocations N, then once for every k in 1..N with exactly the k-th "
+          "allocation (malloc/calloc/realloc of the daemon, cJSON and zlib included) returning NULL. Oracle: no sanitizer report or crash; start-up failures end in a clean non-zero exit; until the fault the reference model, afterwards at most one response "
+          "per request id and none unsolicited; requests sent after the fault's event-loop turn are answered; a fresh client is served at the end; arena, accounted heap, peer count and descriptors are back at the idle baseline after all connections closed and empty at exit. "
+          "quick: the whole corpus with every k on the upstream configuration; thorough: the whole corpus on four configuration variants (table sizes, buffer sizes, event-batch size). non-trivial: the failed allocation was reached; a case is a (scenario, k) pair",
+     level_text="single-fault enumeration: for each of 40 corpus scenarios every allocation performed during the run is made to fail in turn (exhaustive for the corpus when the budget suffices; the evidence says whether it did); the daemon's real main() runs on the simulated kernel with the deterministic arena as the fault seam",
+     technique="deterministic simulation with fault injection: exhaustive single-allocation-failure enumeration over a scenario corpus, arena allocator as the seam, ledger/model oracles, exact replay",
+     nontrivial=[])
